@@ -81,6 +81,35 @@ def build(tree, cfgname):
     return out
 
 
+_L3_DIRS = {}
+
+
+class _written:
+    """the output written to disk: a scratch directory per case, or (for the larger fixed outputs of block W) once per process"""
+
+    def __init__(self, out, cfgname):
+        self.out, self.cfgname, self.scratch = out, cfgname, None
+
+    def __enter__(self):
+        if self.cfgname.startswith("l3:"):
+            if self.cfgname not in _L3_DIRS:
+                from ..runner import scratch_dir
+
+                d = scratch_dir()
+                self.out.write(d)
+                _L3_DIRS[self.cfgname] = d
+            return _L3_DIRS[self.cfgname]
+        self.scratch = _load.Scratch()
+        d = self.scratch.__enter__()
+        self.out.write(d)
+        return d
+
+    def __exit__(self, *a):
+        if self.scratch is not None:
+            self.scratch.__exit__(*a)
+        return False
+
+
 def run_case(tree, spec, extra, cfgname, earlier=()):
     """`earlier`: level predicates (or None for a full load) loaded before on the same dataset object"""
     import osyris
@@ -89,7 +118,13 @@ def run_case(tree, spec, extra, cfgname, earlier=()):
     others = None
     if form.startswith("others-"):
         others, form = form[len("others-"):], ""
-    out = build(tree, cfgname)
+    if cfgname.startswith("l3:"):
+        from . import C04
+
+        out = C04.build_l3(cfgname[3:])
+        tree = out.tree
+    else:
+        out = build(tree, cfgname)
     L = tree.levelmax
     Lstar = max(l for l in range(1, L + 1) if level_accepts(spec, l))
     sel = {"level": level_pred(spec)}
@@ -109,9 +144,18 @@ def run_case(tree, spec, extra, cfgname, earlier=()):
         half = 0.5 * out.boxlen * out.unit_l
         sel["position_x"] = lambda x: x > half * osyris.units("cm")
         rows = [r for r in rows if r["pos"][0] * out.unit_l > half]
+    elif extra.startswith("window="):
+        # a narrow window on every axis (cells whose centre lies strictly inside), on the lattice of level-3 cells
+        i0 = [int(v) for v in extra[7:].split(",")]
+        w = i0.pop()
+        cm = osyris.units("cm")
+        box = out.boxlen * out.unit_l
+        for ax, a in zip("xyz"[: tree.ndim], i0):
+            lo, hi = (a + 0.0625) / 8.0 * box, (a + w - 0.0625) / 8.0 * box
+            sel["position_" + ax] = (lambda lo, hi: (lambda x: (x > lo * cm) & (x < hi * cm)))(lo, hi)
+        rows = [r for r in rows if all((a + 0.0625) / 8.0 * box < r["pos"][k] * out.unit_l < (a + w - 0.0625) / 8.0 * box for k, a in enumerate(i0))]
     problems = []
-    with _load.Scratch() as d:
-        out.write(d)
+    with _written(out, cfgname) as d:
         try:
             if earlier:
                 ds = _load.new_dataset(d, out.nout)
@@ -225,6 +269,17 @@ def cases(thorough):
         for extra in ("none", "density"):
             yield "scale", t, spec, extra, "1cpu"
     fams = families(thorough)
+    # block W: level caps below, at and above levelmin together with a narrow window on every axis, on multi-cpu Hilbert outputs with
+    # levelmin 2 and 3 (the cpu pre-selection must open the file of every coarse cell that becomes a leaf under the cap)
+    import itertools as _it
+
+    for label in ("3d-lm3-3cpu", "3d-lm2-3cpu") + (("3d-lm3-2cpu",) if thorough else ()):
+        for spec in (("le", 1), ("le", 2), ("le", 3), ("between", 0, 3)):
+            for w in (1, 2):
+                per_axis = range(0, 9 - w) if thorough else ((0, 1, 2, 5, 6) if w == 2 else (0, 3, 4, 7))
+                starts = list(_it.product(per_axis, repeat=3))
+                for st in starts:
+                    yield label, None, spec, "window=%d,%d,%d,%d" % (st + (w,)), "l3:" + label
     # block H: the same dataset loaded before with another highest level (or completely): the cap is per call
     for label, trees in fams:
         sel = [t for t in trees if t.levelmax >= 2 and any(l < t.levelmax for (l, _c) in t.refined)][:: max(1, len(trees) // 6)][:6]
@@ -269,6 +324,10 @@ def work(payload):
         label, t, spec, extra, cfgname = item[:5]
         earlier = item[5] if len(item) > 5 else ()
         problems, info = run_case(t, spec, extra, cfgname, earlier)
+        if t is None:
+            from . import C04
+
+            t = C04.build_l3(cfgname[3:]).tree
         acc.case(nontrivial=info.get("Lstar", 0) < info.get("L", 0) or not extra.startswith("none"), outcome="ok" if not problems else "violation")
         if info.get("Lstar", 0) < info.get("L", 0):
             acc.count("capped_below_levelmax")
@@ -300,5 +359,5 @@ def run(ctx):
 
 def replay_sigs(case):
     earlier = case.get("earlier") or ()
-    problems, _ = run_case(C01.tree_from(case["tree"]), tuple(case["spec"]), case["extra"], case["cfg"], earlier)
+    problems, _ = run_case(None if case["cfg"].startswith("l3:") else C01.tree_from(case["tree"]), tuple(case["spec"]), case["extra"], case["cfg"], earlier)
     return ["C12:" + s + (":after-earlier-loads-on-the-dataset" if earlier else "") for s, _ in problems]
